@@ -7,22 +7,19 @@ import NodisVerif.Props.C11
   Reference notion: `Spec.Persist.logical` (what a client can see of the store).  Model: `Store.gc`
   (one eviction pass), `Store.flush`, the lazy reload in `writeKey` / `readKey`, the commands of
   Model/Api.lean, both backends, fault injection `failSet` (= number of upcoming backend writes
-  that are rejected).  `StoreInv`, the horizon `t` and the nil-string finding region (`NilFree`,
-  `Cmd.NilOK`) are explained in Props/C11.lean.
+  that are rejected).  `StoreInv`, the horizon `t` and the nil string (`NilFree`; `LNil s t` =
+  on Pebble nothing the store shows from `t` on is a nil string; no API command creates one) are
+  explained in Props/C11.lean.
 -/
 namespace NodisVerif.C12
 open NodisVerif.Store NodisVerif.Spec.Persist NodisVerif.Proofs.C11
 
 /-! ### one pass -/
 
-/-
-  Full statement (false of the model on Pebble, see `gc_invisible_finding`):
-    StoreInv s t → t ≤ now → now ≤ now' → logical (gc s now) now' = logical s now'
--/
 /-- an eviction pass is invisible: whatever it persists, resets, evicts or unlinks (expired keys),
     and however many backend writes fail, the logical keyspace is the same afterwards — at the
     time of the pass and at every later time.  No hypothesis on `failSet`. -/
-theorem gc_invisible_partial {s : MState} {t now now' : Int} (h : StoreInv s t) (ht : t ≤ now)
+theorem gc_invisible {s : MState} {t now now' : Int} (h : StoreInv s t) (ht : t ≤ now)
     (ht' : now ≤ now') (hnil : NilFree s) : logical (gc s now) now' = logical s now' := by
   have g := gc_spec h ht hnil
   exact logical_ext h.idxSorted g.inv.idxSorted (fun k => g.look now' ht' k)
@@ -30,15 +27,16 @@ theorem gc_invisible_partial {s : MState} {t now now' : Int} (h : StoreInv s t) 
 /-- at full strength on the in-memory backend -/
 theorem gc_invisible_memory {s : MState} {t now now' : Int} (h : StoreInv s t) (hp : s.pebble = false)
     (ht : t ≤ now) (ht' : now ≤ now') : logical (gc s now) now' = logical s now' :=
-  gc_invisible_partial h ht ht' (fun _ _ _ c => by rw [hp] at c; cases c)
+  gc_invisible h ht ht' (fun _ _ _ c => by rw [hp] at c; cases c)
 
-/-- witness on Pebble: after `APPEND k ""` on a missing key, GET answers null while the value is
-    hot and the empty string once a pass has evicted it -/
-theorem gc_invisible_finding :
-    (Api.append (empty true) 0 [107] []).1 = nilState ∧ StoreInv nilState 0 ∧
+/-- `NilFree` is needed: on a Pebble store holding a nil string (not reachable through the API; it
+    satisfies the invariant) GET answers null while the value is hot and the empty string once a
+    pass has evicted it -/
+theorem nil_string_breaks_eviction :
+    StoreInv nilState 0 ∧
     logical nilState 0 = [([107], .strNil, 0)] ∧ logical (gc nilState 0) 0 = [([107], .str [], 0)] ∧
     (Api.get nilState 0 [107]).2 = .bytes none :=
-  ⟨nilState_reached, nilState_inv 0, nilState_logical, nilState_gc, nilState_get_hot⟩
+  ⟨nilState_inv 0, nilState_logical, nilState_gc, nilState_get_hot⟩
 
 /-- the pass preserves the storage invariant (any `failSet`) -/
 theorem gc_preserves_inv {s : MState} {t now : Int} (h : StoreInv s t) (ht : t ≤ now) (hnil : NilFree s) :
@@ -64,7 +62,7 @@ theorem failed_write_keeps_dirty {s : MState} {t now : Int} (h : StoreInv s t) {
 
 /-- a whole pass during which the backend rejects every write: every live modified record is
     still hot, still modified, same value, same deadline; the logical keyspace and the invariant
-    are untouched (`gc_invisible_partial`, `gc_preserves_inv` hold for every `failSet`) -/
+    are untouched (`gc_invisible`, `gc_preserves_inv` hold for every `failSet`) -/
 theorem failed_pass_keeps_dirty {s : MState} {t now : Int} (h : StoreInv s t) (ht : t ≤ now) (hnil : NilFree s)
     (hc : s.closed = false) (hf : s.index.length ≤ s.failSet) {k : Bytes} {m : Meta}
     (hm : AList.get? s.index k = some m) (hal : m.expired now = false) (hmod : m.isModified = true) :
@@ -132,12 +130,13 @@ theorem command_sim (c : Cmd) {s1 s2 : MState} {t now : Int} (hc : c.WF) (h : Si
   PEXPIRE PERSIST TTL PTTL TYPE EXISTS LPUSH/RPUSH LPOP/RPOP LLEN LINDEX LRANGE HSET HDEL, every
   hash read (HGET HLEN HKEYS HVALS HGETALL HEXISTS HSTRLEN HMGET HSCAN), SADD SREM, every set read
   (SCARD SMEMBERS SISMEMBER SSCAN), ZADD, every sorted-set read (ZCARD ZSCORE ZRANK ZRANGE ...)),
-  DEL/UNLINK with any number of keys, RENAME and KEYS.  On Pebble outside the nil-string region.
+  the commands given through `Cmd.raw` below, DEL/UNLINK with any number of keys, RENAME and KEYS.
 -/
 /-- any eviction schedule is invisible: run any sequence of commands with `gc` and `flush` passes
     inserted at arbitrary points (times non-decreasing): the replies are exactly those of the run
-    without any pass, and the final logical keyspace is the same, now and at any later time -/
-theorem any_eviction_schedule_invisible_partial (steps : List Step) {s : MState} {t now' : Int}
+    without any pass, and the final logical keyspace is the same, now and at any later time.
+    Either backend; the start state shows no nil string (`LNil`, e.g. the empty store). -/
+theorem any_eviction_schedule_invisible (steps : List Step) {s : MState} {t now' : Int}
     (h : StoreInv s t) (hl : LNil s t) (hto : TimesOK t steps) (hok : ∀ st ∈ steps, st.OK s.pebble)
     (ht' : endTime t steps ≤ now') :
     (runSteps steps s).2 = (runSteps (stripPasses steps) s).2 ∧
@@ -146,13 +145,30 @@ theorem any_eviction_schedule_invisible_partial (steps : List Step) {s : MState}
   obtain ⟨a, b⟩ := sched_core steps t s s ⟨h, h, fun _ _ _ => rfl⟩ rfl hl hto hok
   exact ⟨a, b.logical ht', b.inv1⟩
 
-/-- on the in-memory backend: no nil-string restriction at all -/
+/-- from the empty store, on either backend, with no nil-string hypothesis at all -/
+theorem any_eviction_schedule_invisible_from_empty (pebble : Bool) (steps : List Step) {now' : Int}
+    (hto : TimesOK 0 steps) (hok : ∀ st ∈ steps, st.OK pebble) (ht' : endTime 0 steps ≤ now') :
+    (runSteps steps (empty pebble)).2 = (runSteps (stripPasses steps) (empty pebble)).2 ∧
+    logical (runSteps steps (empty pebble)).1 now' = logical (runSteps (stripPasses steps) (empty pebble)).1 now' :=
+  let r := any_eviction_schedule_invisible steps (Proofs.C11.empty_inv pebble 0) (empty_lnil pebble 0) hto hok ht'
+  ⟨r.1, r.2.1⟩
+
+/-- every state such a run reaches satisfies the invariant and shows no nil string, so
+    `gc_invisible`, `C11.close_reopen_restores` ... apply to it on Pebble as well -/
+theorem reachable_inv_nilfree (steps : List Step) {s : MState} {t : Int}
+    (h : StoreInv s t) (hl : LNil s t) (hto : TimesOK t steps) (hok : ∀ st ∈ steps, st.OK s.pebble) :
+    StoreInv (runSteps steps s).1 (endTime t steps) ∧ LNil (runSteps steps s).1 (endTime t steps) ∧
+    NilFreeAt (runSteps steps s).1 (endTime t steps) := by
+  obtain ⟨a, b, _⟩ := run_inv_lnil steps t s h hl hto hok
+  exact ⟨a, b, LNil.at a (Int.le_refl _) b⟩
+
+/-- on the in-memory backend a start state may even hold nil strings -/
 theorem any_eviction_schedule_invisible_memory (steps : List Step) {s : MState} {t now' : Int}
     (h : StoreInv s t) (hp : s.pebble = false) (hto : TimesOK t steps)
     (hwf : ∀ c now, Step.cmd c now ∈ steps → c.WF) (ht' : endTime t steps ≤ now') :
     (runSteps steps s).2 = (runSteps (stripPasses steps) s).2 ∧
     logical (runSteps steps s).1 now' = logical (runSteps (stripPasses steps) s).1 now' := by
-  have := any_eviction_schedule_invisible_partial steps h (fun c => by rw [hp] at c; cases c) hto
+  have := any_eviction_schedule_invisible steps h (fun c => by rw [hp] at c; cases c) hto
     (by
       intro st hst
       cases st with
@@ -160,12 +176,11 @@ theorem any_eviction_schedule_invisible_memory (steps : List Step) {s : MState} 
       | _ => trivial) ht'
   exact ⟨this.1, this.2.1⟩
 
-/-- the witness of the region on Pebble, as a schedule: APPEND k "" ; [gc] ; GET k -/
-theorem any_eviction_schedule_invisible_finding :
-    (runSteps [.cmd (.append [107] []) 0, .gc 0, .cmd (.get [107]) 0] (empty true)).2 ≠
-    (runSteps [.cmd (.append [107] []) 0, .cmd (.get [107]) 0] (empty true)).2 := by
-  simp only [runSteps, Step.exec, Cmd.run, nilState_reached, List.append_nil, List.cons_append,
-    List.nil_append, nilState_get_hot]
+/-- `LNil` on the start state is needed: from the (unreachable) Pebble state holding a nil string,
+    `[gc] ; GET k` and `GET k` answer differently -/
+theorem nil_string_breaks_schedule :
+    (runSteps [.gc 0, .cmd (.get [107]) 0] nilState).2 ≠ (runSteps [.cmd (.get [107]) 0] nilState).2 := by
+  simp only [runSteps, Step.exec, Cmd.run, List.append_nil, List.nil_append, nilState_get_hot]
   have : (Api.get (gc nilState 0) 0 [107]).2 = .bytes (some []) := by
     simp [gc, nilState, Meta.expired, Meta.isOk, Meta.isModified, persist, diskSet, Codec.encodeKey,
       putVarint_zero, AList.set, putMeta, syncShared, Api.get, readKey, getMeta, AList.get?, lockR,
@@ -179,7 +194,7 @@ theorem any_eviction_schedule_invisible_finding :
 
   `Cmd.raw f` runs the key transaction `f`; each theorem below says that a command of the model *is*
   such a transaction and meets the side conditions of the schedule theorem (`WF`, `NilOK`), so
-  `any_eviction_schedule_invisible_partial` applies to it verbatim. -/
+  `any_eviction_schedule_invisible` applies to it verbatim. -/
 
 theorem setEX_covered (s : MState) (now : Int) (key value : Bytes) (seconds : Int) :
     Api.setEX s now key value seconds =
@@ -259,22 +274,25 @@ theorem zaddNX_covered (s : MState) (now : Int) (key m : Bytes) (sc : F64) (hn :
 -/
 /-- SCAN — with or without TYPE filter, any cursor, pattern and count — gives the same reply before
     and after an eviction pass that finds no expired record: the pass keeps every record in place
-    and keeps its cached type, also when it drops the value from memory -/
+    and the TYPE filter sees the same type, also when the pass drops the value from memory
+    (`TypeOK`: the cached types of `s` are right) -/
 theorem scan_gc_invisible_partial {s : MState} {t now : Int} (h : StoreInv s t) (ht : t ≤ now) (hnil : NilFree s)
-    (hlive : ∀ k m, AList.get? s.index k = some m → m.expired now = false)
+    (hty : TypeOK s) (hlive : ∀ k m, AList.get? s.index k = some m → m.expired now = false)
     (cursor : Int) (pat : Bytes) (count : Int) (typ : Nat) :
     (Api.scan (gc s now) now cursor pat count typ).2 = (Api.scan s now cursor pat count typ).2 := by
-  obtain ⟨a, b⟩ := gc_scanRel h ht hnil hlive
+  obtain ⟨a, b⟩ := gc_scanRel h ht hnil hty hlive
   exact (scan_congr _ a b cursor pat count typ).symm
 
 /-- witness: SCAN's cursor is a position in the index, and the pass unlinks expired records.  With
-    "a" expired but not yet collected and "b" live, `SCAN 1` answers (2, [b]) before the pass and
-    (0, []) after it -/
+    "a" expired but not yet collected and "b" live: `SCAN 0 COUNT 1` answers (2, []); `SCAN 2` then
+    answers (0, [b]) — unless a pass ran in between: then position 2 is past the end, the answer is
+    (0, []) and the iteration ends without ever reporting the live key "b" -/
 theorem scan_gc_finding :
     StoreInv expState 10 ∧
-    (Api.scan expState 10 1 [42] 10 0).2 = .many [.int 2, .slist [[98]]] ∧
-    (Api.scan (gc expState 10) 10 1 [42] 10 0).2 = .many [.int 0, .slist []] :=
-  ⟨expState_inv, expState_scan, expState_scan_gc⟩
+    (Api.scan expState 10 0 [42] 1 0).2 = .many [.int 2, .slist []] ∧
+    (Api.scan expState 10 2 [42] 10 0).2 = .many [.int 0, .slist [[98]]] ∧
+    (Api.scan (gc expState 10) 10 2 [42] 10 0).2 = .many [.int 0, .slist []] :=
+  ⟨expState_inv, expState_scan_first, expState_scan, expState_scan_gc⟩
 
 /-! ### non-vacuity -/
 
@@ -323,6 +341,8 @@ example : StoreInv { exState true with failSet := 2 } 0 ∧
      are proved, the well-formedness of the rewritten list is not), RPOPLPUSH/LPOPRPUSH,
      HINCRBY[FLOAT], HMSET, SPOP, SRANDMEMBER, SMOVE, SDIFF/SINTER/SUNION[STORE], ZADD XX|LT|GT,
      ZINCRBY, ZREM*, ZUNION/ZINTER[STORE], EXISTS with several names, FLUSHDB.
+   * `TypeOK` (hypothesis of `scan_gc_invisible_partial`): preservation by the covered commands is not
+     proved (see Props/C11.lean).
    * SCAN is proved invisible across one pass (`scan_gc_invisible_partial`) but is not a `Step` of the
      schedule theorem (its reply depends on index positions, not on the logical keyspace: finding
      `scan_gc_finding`).
